@@ -212,6 +212,23 @@ def job_inverse(job):
                 if not same and len(out['failures']) < 15:
                     out['failures'].append({'config': cfg, 'op': 'div', 'what': nm + ' violated', 'a': showmv(bk, bv), 'b': showmv(ak, av),
                                             'lhs': str(x)[:200], 'rhs': str(y)[:200]})
+            # the same multivector object after its coefficients were changed in place (multivectors are mutable): inv() of the
+            # object as it is now, not as it was at an earlier call
+            if g[0] == 'value' and len(ak) >= 1:
+                out['evaluations'] += 1
+                j_ = rng.randrange(len(ak))
+                try:
+                    a.values()[j_] = a.values()[j_] * 3 + 1
+                except Exception:
+                    a = None
+                if a is not None:
+                    g2 = _safe(lambda: a.inv())
+                    if g2[0] == 'value':
+                        l2, r2 = _safe(lambda: fr.mv_to_ref(a * g2[1])), _safe(lambda: fr.mv_to_ref(g2[1] * a))
+                        ok2 = l2[0] == 'value' and r2[0] == 'value' and _near(l2[1], one, fr.d) and _near(r2[1], one, fr.d)
+                        if not ok2 and len(out['failures']) < 15:
+                            out['failures'].append({'config': cfg, 'op': 'inv', 'a': showmv(ak, list(a.values())), 'what': 'x*inv(x) is not 1 for a multivector whose coefficients were updated in place after an earlier inv()',
+                                                    'earlier_values': [str(v) for v in av], 'x*inv': str(l2[1])[:200]})
             if len(out['samples']) < 3:
                 out['samples'].append({'config': cfg, 'a': showmv(ak, av)})
     out['distinct'] = len(pats)
@@ -259,6 +276,10 @@ def job_symbolic(job):
         out['configs'] += 1
         for it in range(cfg.get('random', 5)):
             ak, bk = rand_keys(rng, alg, 'sparse') or (0,), rand_keys(rng, alg, rng.choice(['sparse', 'grade'])) or (0,)
+            if cfg.get('graded'):
+                # graded mode stores complete grades
+                ak = tuple(alg.indices_for_grades[tuple(sorted(rng.sample(range(alg.d + 1), rng.randint(1, 2))))])
+                bk = tuple(alg.indices_for_grades[tuple(sorted(rng.sample(range(alg.d + 1), rng.randint(1, 2))))])
             # partition of coefficients into symbolic / numeric
             def mixed(prefix, keys):
                 vals, env = [], {}
@@ -269,10 +290,20 @@ def job_symbolic(job):
                         env[s] = v
                         vals.append(s)
                     else:
-                        vals.append(sympy.Rational(rng.randint(-4, 4) or 2, rng.randint(1, 3)))
+                        # explicit numeric zeros as well: part of a grade may vanish identically while the rest does not
+                        vals.append(sympy.Rational(rng.randint(-4, 4) if rng.random() < 0.5 else (rng.randint(-4, 4) or 2), rng.randint(1, 3)))
                 return vals, env
             av, aenv = mixed('a', ak)
             bv, benv = mixed('b', bk)
+            if cfg.get('graded') or it % 3 == 2:
+                # a numeric operand with exact zeros next to non-zero entries: some result coefficients of a grade vanish
+                # identically while others of the same grade do not
+                nzpos = rng.randrange(len(bk))
+                bv = [sympy.Rational(rng.randint(1, 4), rng.randint(1, 2)) if (j == nzpos or rng.random() < 0.3) else sympy.Rational(0) for j in range(len(bk))]
+                benv = {}
+                if it % 2:
+                    av = [sympy.Symbol(f'a{alg.bin2canon[k][1:]}') for k in ak]
+                    aenv = {s_: F(rng.randint(-5, 5) or 1, rng.randint(1, 3)) for s_ in av}
             env = dict(aenv)
             env.update(benv)
             a, b = mv_from(alg, ak, av), mv_from(alg, bk, bv)
